@@ -213,13 +213,16 @@ def maxAt : List Nat → Nat → Nat → List Nat
   | x :: xs, 0, d => (if x < d then d else x) :: xs
   | x :: xs, q + 1, d => x :: maxAt xs q d
 
-/-- 1510-1522: patternOffset, the `limit` clamp and the max loop.  Returns the new array
-    and whether a negative index was touched (that write is then left out). -/
+/-- 1515-1531: patternOffset, the `limit` clamp and the max loop, which starts at
+    `k = (patternOffset < 0) ? -patternOffset : 0` (a digit in front of a leading '.' has no
+    position in the word).  Returns the new array and whether a negative index was touched
+    (instrumentation: `applyPat_spec` shows it never is). -/
 def applyPat (h : List Nat) (n i : Nat) (s : List Nat) : List Nat × Bool :=
   let L : Int := s.length
   let off : Int := (i : Int) + 1 - L
   let limit : Int := min L ((n : Int) - off)
-  (List.range limit.toNat).foldl (fun (acc : List Nat × Bool) (k : Nat) =>
+  let k0 : Nat := if off < 0 then (-off).toNat else 0
+  (List.range' k0 (limit.toNat - k0)).foldl (fun (acc : List Nat × Bool) (k : Nat) =>
     let idx : Int := off + (k : Int)
     if idx < 0 then (acc.1, true) else (maxAt acc.1 idx.toNat (s.getD k 0), acc.2)) (h, false)
 
